@@ -181,12 +181,14 @@ package schema
 //@   pure
 //@   ensures result == parentOf(self)
 
-// ASSUMED frame of the key lookup by position (string-keyed index, not verified)
+// key lookup by position: the i-th key of the table, a string panic past its end
 //@ func (ObjectNode).Key(index)
 //@   props C01
-//@   trusted "key table lookup by position: only its frame is assumed"
+//@   assumes n.keys != nil && index >= 0
 //@   maypanic
-//@   defines panics ==> typeis(pv, string)
+//@   ensures n.keys != nil && index >= 0 ==> (panics <==> index >= len(n.keys.Data))
+//@   ensures n.keys != nil && index >= 0 && normal ==> result == n.keys.Data[index]
+//@   ensures panics ==> typeis(pv, string)
 
 //@ func (*MixedValueNode).GetTypes()
 //@   props C09
